@@ -16,6 +16,18 @@ code->spec : per quantisation point the harness logs arg-max of the raw coeffici
              summary = arg-max, exported input precision = exported output precision of the producer computed by the
              reference dataflow operator QPoint from the logged architecture, bit-identity.  Seeded random
              architectures (up to 9 nodes, widths 2..6, strides, bias on/off, all 15 tuples) go through the same spec.
+Histories  : every scenario is a call history that ends in a compared export(): mode switches (eval / hard / hard-Gumbel
+             training), forward passes with autograd enabled or under no_grad in the CURRENT mode (no mode switch in
+             between), coefficient writes by load_state_dict / in-place copy_ / .data, SGD steps on the network weights
+             only / on all parameters, observers.  EVERY export() of a history is compared: the model is evaluated in eval
+             mode BEFORE export() is called (without switching a model that already is in eval mode) and again after it,
+             the exported module must reproduce both on 3 batches (sizes 3,2,5; tracing example: input_shape or an
+             input_example of batch 2..5), and its weight / bias must be the current ones (clause C02.snapshot).
+             Design level: env = [mode, cached, weight version, snapshot version]; InvExportCurrent (export after k weight
+             updates holds the weights of version k), InvFreshIsSummary whatever the autograd mode; expected-to-fail
+             variants FwdImpl = "cache" (eval + no_grad forward skips the weight sampler) and ExpImpl = "memo".
+Conv options: padding_mode zeros / reflect / replicate / circular, dilation 1..2 (2-D too), stride 1..2, bias on/off, un-padded
+             convs (random driver); InvExportGeom + clause C02.geometry (options of the exported layer read off the object).
 Tolerance  : none - bit-identical is torch.equal in float32 on CPU with one thread; precisions are integers.
 """
 from __future__ import annotations
@@ -33,7 +45,10 @@ ASSUMPTIONS = [
     "one candidate tuple for all activation quantisers and one for all weight quantisers (get_default_qinfo), a separate one for the network input",
     "coefficient gaps >= 0.06 so that the arg-max is unambiguous in float32 at every temperature in [0.05, 20]",
     "PACT clipping values randomised in [0.7, 3.3]; weights scaled so that activations spread over the quantisers' ranges",
-    "bit-identity observed on 3 input batches (8 samples) per export, float32, CPU, 1 thread",
+    "bit-identity observed on 3 input batches (10 samples, one outside the input range, batch sizes 3,2,5) per export, before and "
+    "after the export() call, float32, CPU, 1 thread",
+    "non-zero padding modes only where PyTorch accepts them (input larger than the padding)",
+    "SGD steps: one step, lr 0.05 on weights / 0.002 on coefficients, loss = mean((y-0.3)^2), hard-sampling training mode",
     "quantiser sharing and 'output is not quantised' are predictions (SPEC-DRIFT), not clauses of C02",
     "no plain conv with exactly one input and one output channel (plinio classifies it as depthwise: ambiguous sharing rule)",
     "1-D: causal (left-padded) or 'same'-padded Conv1d, dilation 1..2, no BatchNorm after a Conv1d (MPS folds Conv2d-BN and Linear-BN only)",
@@ -47,11 +62,11 @@ def run(tier: str, seed: int, replay=None) -> int:
     plan = {
         "rule": RULE, "assumptions": ASSUMPTIONS,
         # (config, max replayed states (0 = all), states per model build (0 = all), label)
-        "design": ([("MPSLifeMC_arch_quick", 300, 3, "arch"), ("MPSLifeMC_tuples_quick", 200, 1, "tuples"),
+        "design": ([("MPSLifeMC_arch_quick", 270, 3, "arch"), ("MPSLifeMC_tuples_quick", 160, 1, "tuples"),
                     ("MPSLifeMC_all_quick", 240, 30, "allwinners"), ("MPSLifeMC_d1_quick", 150, 3, "arch1d"),
                     ("MPSLifeMC_reuse_quick", 90, 3, "reuse", "F66"), ("MPSLifeMC_opts_quick", 180, 3, "convopts"),
-                    ("MPSLifeMC_opts1d_quick", 60, 3, "convopts1d"), ("MPSLifeMC_modes_quick", 150, 50, "modes"),
-                    ("MPSLifeMC_export_quick", 200, 50, "exports")] if q else
+                    ("MPSLifeMC_opts1d_quick", 60, 3, "convopts1d"), ("MPSLifeMC_modes_quick", 100, 50, "modes"),
+                    ("MPSLifeMC_export_quick", 150, 50, "exports")] if q else
                    [("MPSLifeMC_arch_quick", 0, 0, "arch"), ("MPSLifeMC_arch_thorough", 2400, 3, "arch4"),
                     ("MPSLifeMC_arch5_thorough", 1200, 3, "arch5"), ("MPSLifeMC_tuples_thorough", 2000, 2, "tuples"),
                     ("MPSLifeMC_all_thorough", 2500, 40, "allwinners"), ("MPSLifeMC_few_thorough", 1200, 3, "few"),
@@ -61,7 +76,7 @@ def run(tier: str, seed: int, replay=None) -> int:
                     ("MPSLifeMC_opts1d_quick", 0, 0, "convopts1d"), ("MPSLifeMC_modes_thorough", 1500, 100, "modes"),
                     ("MPSLifeMC_export_thorough", 2500, 150, "exports")]),
         "sanity": ["MPSLifeMC_nokf40", "MPSLifeMC_noreuse", "MPSLifeMC_cachefwd", "MPSLifeMC_memoexport"],
-        "n_random": 60 if q else 600, "random_sels": 2 if q else 3, "max_nodes": 9 if q else 12,
+        "n_random": 50 if q else 600, "random_sels": 2 if q else 3, "max_nodes": 9 if q else 12,
         "procs": 8, "tlc_workers": 8,
     }
     return mps_gen.run_check("C02", tier, seed, replay, plan)
